@@ -780,8 +780,14 @@ def main(ctx):
         files = {COMPS[COQ_COMP.index(c)]: f for c, f in cfg['load_names']}
         sentinel = cfg['read_sentinel']
     pool = pool_descs(ctx)
+    # key_cfg_ok rejects the translated key configuration but the model itself finds no collection that
+    # fails to round-trip (e.g. a correct `endswith` spelling of the tests): the static check is
+    # incomplete there, not the code wrong -> search deeper (widened key stream) instead of alarming
+    key_incomplete = bool(ktie_ok and kcfg_ok is False and key_witness is not None
+                          and not key_witness['colliding_pairs'] and not key_witness['failing_names']
+                          and not key_witness['time_series_lost'])
     hs = gen_histories(ctx, cfg, widen='save' in degraded)
-    rts = gen_roundtrips(ctx, widen=bool(degraded))
+    rts = gen_roundtrips(ctx, widen=bool(degraded) or key_incomplete)
     # corpus first
     corpus = sorted((lib.VERIF / 'corpus' / 'C05').glob('*.json'))
     for p in corpus:
@@ -791,7 +797,7 @@ def main(ctx):
         h['id'] = i
     types = kcfg['element_types'] if kcfg else ['line', 'tri', 'tri2', 'quad', 'tet', 'tet2', 'pyr', 'prism',
                                                 'hex', 'hex2', 'hexprism']
-    kcs = gen_keycases(ctx, types, widen='keys' in degraded)
+    kcs = gen_keycases(ctx, types, widen='keys' in degraded or key_incomplete)
     ctx.log(f'{len(hs)} histories, {len(rts)} round trips, {len(kcs)} key-scheme cases')
     tws = gen_twice(ctx)
     out = run_impl(ctx, files, hs, rts, pool, kcs, tws)
@@ -1171,7 +1177,13 @@ def main(ctx):
         ctx.violation('proof-broken', {'undischarged': bad}, 'C05 key-scheme theorems check', 'do not check',
                       ', '.join(bad) or 'key model build', found_input=False,
                       signature={'kind': 'key-proof-broken'})
-    if ktie_ok and kcfg_ok is False and n_key_bad == 0 and n_rt_bad == 0:   # rejected, nothing fails on femio
+    if key_incomplete:
+        ctx.notes['key_static_check_incomplete'] = (
+            'key_cfg_ok rejects the translated configuration, the model finds no failing collection; the '
+            'instantiated round-trip theorems are NOT available for this tree; widened key correspondence '
+            f'({len(klines)} cases, {len(kdis)} disagreements, {n_key_bad} oracle failures) decides')
+    if ktie_ok and kcfg_ok is False and n_key_bad == 0 and n_rt_bad == 0 and not key_incomplete:
+        # rejected with a model witness, but nothing fails on femio
         ctx.violation('proof-broken', {'model_witnesses': key_witness},
                       'key_cfg_ok kcfg = true', 'false, and no failing input was found on the implementation',
                       'C05_run_key_cfg_rejected', found_input=False,
@@ -1206,6 +1218,10 @@ def main(ctx):
         tie['key scheme'] = (f"H (translator could not read to_dict / from_dict / _split_dict_data: "
                              f"{degraded['keys']}; baseline model + widened correspondence, {n_k} key cases "
                              f"+ {len(rts)} round trips)")
+    elif ktie_ok and key_incomplete:
+        tie['key scheme'] = (f'T (translated on this run; key_cfg_ok cannot decide this configuration and the '
+                             f'model finds no failing collection: theorems not instantiated) + widened H '
+                             f'({n_k} key cases)')
     elif ktie_ok:
         tie['key scheme'] = f'T (translated on this run) + H ({n_k} key cases)'
     ctx.notes['tie'] = tie
